@@ -35,6 +35,10 @@ def bases():
     for b in ("B1", "B2"):
         out["eblif:" + b] = (".eblif", ew.render(c18.base(b)))
     out["eblif:B2-conn-first"] = (".eblif", ew.render(c18.base("B2"), order=[3, 4, 0, 1, 2]))
+    # the other spellings / surrounding constructs of the supported subsets
+    out["verilog:late"] = (".v", vw.render(c06.base_vad(), alt="late"))
+    out["edif:E9-rich"] = (".edf", edif_writer.render(fdesigns.BASES["E9"](), rich=True))
+    out["eblif:B7"] = (".eblif", ew.render(c18.base("B7")))
     return out
 
 
